@@ -225,17 +225,20 @@ inductive WOp
   | newIface (s : Id) (bs : List Id) (attrs : Attrs) (tags : AList String Nat) (invs : List (Nat × Bool))
   | setBases (s : Id) (bs : List Id)
   | get (i : Id) (n : String)
+  | setTag (i : Id) (t : String) (v : Nat)            -- `I.setTaggedValue(t, v)` on a live interface
 
 def wstep (w : W) : WOp → W
   | .newIface s bs a t iv => newIface w s bs a t iv
   | .setBases s bs => setBases w s bs
   | .get i n => (get w i n).1
+  | .setTag i t v => setTag w i t v
 
 /-- the graph operation behind a world operation -/
 def gop : WOp → Option Op
   | .newIface s bs _ _ _ => some (.new s bs)
   | .setBases s bs => some (.set s bs)
   | .get _ _ => none
+  | .setTag _ _ _ => none
 
 /-- well-formedness in a state: the graph part is well-formed (duplicate-free bases, no cycle), the root is never the
 target, and a new interface is really new as far as attribute tables go (nobody's memo mentions it: it is visited anyway) -/
@@ -278,6 +281,7 @@ theorem memoOk_rebase (w : W) (g' : G) (s : Id) (direct' : Id → Attrs) (h : Me
 
 theorem winv_step (w : W) (op : WOp) (hi : WInv w) (hw : WFW w op) : WInv (wstep w op) := by
   cases op with
+  | setTag i t v => exact ⟨hi.ginv, hi.root, hi.b0, hi.memo⟩      -- tagged values are neither memoised nor part of the graph
   | get i n =>
     have hg : (wstep w (.get i n)).g = w.g := by
       simp only [wstep, get]
